@@ -2,6 +2,7 @@
    N/Z/positive/nat stay Coq datatypes; no Extract Constant). Run from the output dir. *)
 From Coq Require Import Extraction ExtrOcamlBasic.
 From KV Require Import Bytes WalCodec Memtable Engine.
+From KV Require Import Txn.
 Extraction Language OCaml.
 Set Extraction Output Directory ".".
 Separate Extraction
@@ -12,4 +13,5 @@ Separate Extraction
   WalCodec.wal_new_file WalCodec.wal_update_next WalCodec.canon WalCodec.wf_entry
   Memtable.mt_iter_entries Memtable.seek_ge
   Engine.init Engine.put Engine.del Engine.apply_batch Engine.tx_commit Engine.get Engine.flush
-  Engine.reopen Engine.run Engine.buffer_ops.
+  Engine.reopen Engine.run Engine.buffer_ops
+  Txn.ser_check Txn.ser_why.
